@@ -178,6 +178,21 @@ def codecHandler : Handler
       let (s, ts) ← readSchema ts
       let (r, _) ← readRecord s ts
       pure (showRes out (Codec.marshal s r))
+  -- codecenc <type> <schema> n recordⁿ : one Encoder, the records one after another
+  | "codecenc", _ :: ts => do
+      let (s, ts) ← readSchema ts
+      match ts with
+      | n :: ts =>
+        let n ← n.toNat?
+        let rec go : Nat → List String → Option (List (List Val))
+          | 0, _ => some []
+          | k+1, ts => do
+              let (r, ts) ← readRecord s ts
+              let rest ← go k ts
+              pure (r :: rest)
+        let rs ← go n ts
+        pure (showRes out (Codec.marshalAll s rs))
+      | [] => none
   | "codecrt", _ :: ts => do
       let (s, ts) ← readSchema ts
       let (r, _) ← readRecord s ts
